@@ -79,6 +79,9 @@ Objs == { ObjA1,
           Obj([b |-> Str("abc")]),                                    \* required a missing
           Obj([a |-> Null]),                                          \* required a null
           Obj([a |-> NumL("i1"), z |-> NumL("i1")]),                  \* undeclared field
+          Obj([a |-> NumL("i1"), b |-> Null]),                        \* null where there is a default: null it is
+          Obj([a |-> NumL("i1"), c |-> Null, r |-> NumL("i1")]),
+          Obj([a |-> NumL("i1"), r |-> Null]),                        \* null for a required field with a default
           Obj([a |-> NumL("i2p32p1")]),                               \* out of range, nested
           Obj([a |-> NumL("f1p5")]),
           Obj([a |-> Str("abc")]),
